@@ -36,8 +36,11 @@ def run_job(job):
 
         samples = []
 
+        nconf = [0]
+
         def on_confirmed(arguments, ret):
-            if len(samples) < 3:
+            nconf[0] += 1
+            if len(samples) < 3 and nconf[0] in (1, 5, 25):
                 from crosshair.core import deep_realize
 
                 samples.append(_jsonable(deep_realize(dict(arguments))))
